@@ -76,7 +76,18 @@ func c07Scenario(t *rapid.T) (cfg *telemetry.UploadConfig, files []*vmodel.Count
 	var ends []time.Time
 	k := rapid.IntRange(-24, 2).Draw(t, "firstWeekOffsetDays")
 	for i := 0; i < nweeks; i++ {
-		ends = append(ends, vgen.Midnight(start).AddDate(0, 0, k))
+		end := vgen.Midnight(start).AddDate(0, 0, k)
+		// now and then a week whose files record their span with a UTC offset (written by another
+		// implementation or an older version): the week is still named by the recorded end date
+		switch rapid.IntRange(0, 7).Draw(t, "endZone") {
+		case 0:
+			z := time.FixedZone("", 2*3600)
+			end = time.Date(end.Year(), end.Month(), end.Day(), 0, 0, 0, 0, z)
+		case 1:
+			z := time.FixedZone("", -5*3600)
+			end = time.Date(end.Year(), end.Month(), end.Day(), 0, 0, 0, 0, z)
+		}
+		ends = append(ends, end)
 		k += rapid.IntRange(1, 8).Draw(t, "weekGapDays")
 	}
 	var markers []string
